@@ -52,16 +52,18 @@ def _mentions(term, names, _seen=None):
 def gate_filter(hyps, goal):
     if not GATES or _mentions(goal, GATES):
         return hyps
-    out = []
+    from .engine import flatten_and
+    flat = []
     for h in hyps:
-        parts = [h]
-        if z3.is_and(h):
-            from .engine import flatten_and
-            parts = flatten_and(h)
-        for c in parts:
-            if z3.is_implies(c) and z3.is_const(c.arg(0)) and c.arg(0).decl().name() in GATES:
-                continue
-            out.append(c)
+        flat.extend(flatten_and(h) if z3.is_and(h) else [h])
+    # a gate that is ASSERTED among the hypotheses (the glue lemmas take the post-condition with the gate True) is not filtered
+    asserted = {c.decl().name() for c in flat if z3.is_const(c) and c.decl().name() in GATES}
+    out = []
+    for c in flat:
+        if z3.is_implies(c) and z3.is_const(c.arg(0)) and c.arg(0).decl().name() in GATES \
+                and c.arg(0).decl().name() not in asserted:
+            continue
+        out.append(c)
     return out
 
 
